@@ -29,6 +29,7 @@ def zerr : ZipErr → ZErr
   | .Io .InvalidInput => .io .invalidInput
   | .Io .UnexpectedEof => .io .unexpectedEof
   | .Io .WriteZero => .io .writeZero
+  | .Io .BrokenPipe => .io .brokenPipe
   | .InvalidArchive => .invalidArchive
   | .UnsupportedArchive => .unsupportedArchive
   | .FileNotFound => .fileNotFound
